@@ -1,13 +1,34 @@
 (* C01 - property theorems only (proofs in Lang/*.v, C01/ArithPaths.v, C01/CoreLemmas.v).
    Ref = the fuelled reference interpreter [Lang.Sem.eval/exec] and [Lang.Print.run]. *)
 From Coq Require Import List ZArith Bool Arith.
-From Cb Require Import Lang.Syntax Lang.Sem Lang.Respect Lang.Theorems Lang.Print C01.ArithPaths C01.CoreLemmas.
+From Cb Require Import Lang.Syntax Lang.Sem Lang.Respect Lang.Theorems Lang.Print Lang.FuelMono C01.ArithPaths C01.CoreLemmas.
 Import ListNotations.
 Local Open Scope Z_scope.
 
 Theorem run_deterministic : forall fuel p r1 r2, run fuel p = r1 -> run fuel p = r2 -> r1 = r2.
 Proof. exact run_deterministic_l. Qed.
 Print Assumptions run_deterministic.
+
+(* fuel is only a termination device: once a run ends without exhausting it, any larger fuel gives
+   exactly the same transcript and outcome - the meaning of a program does not depend on the fuel *)
+Theorem run_fuel_independent : forall n m p out oc, (n <= m)%nat ->
+  run n p = (out, oc) -> oc <> Failed ENoFuel -> run m p = (out, oc).
+Proof. exact run_fuel_independent_l. Qed.
+Print Assumptions run_fuel_independent.
+
+Theorem run_meaning_unique : forall n m p o1 c1 o2 c2,
+  run n p = (o1, c1) -> run m p = (o2, c2) -> c1 <> Failed ENoFuel -> c2 <> Failed ENoFuel -> o1 = o2 /\ c1 = c2.
+Proof.
+  intros n m p o1 c1 o2 c2 H1 H2 N1 N2. destruct (Nat.le_ge_cases n m) as [L|L].
+  - rewrite (run_fuel_independent_l n m p o1 c1 L H1 N1) in H2. injection H2 as <- <-. auto.
+  - rewrite (run_fuel_independent_l m n p o2 c2 L H2 N2) in H1. injection H1 as <- <-. auto.
+Qed.
+Print Assumptions run_meaning_unique.
+
+Theorem evaluation_fuel_monotone : forall funcs n m, (n <= m)%nat ->
+  (forall e, le_m (eval funcs n e) (eval funcs m e)) /\ (forall s, le_m (exec funcs n s) (exec funcs m s)).
+Proof. exact fuel_monotone. Qed.
+Print Assumptions evaluation_fuel_monotone.
 
 (* For every function table, fuel, expression / statement and start state: the output after the
    evaluation extends the output before it - nothing already delivered is ever taken back. *)
